@@ -543,7 +543,7 @@ func run(c *vf.Ctx) {
 		for k := 0; k < M; k++ {
 			pts = append(pts, point{k, false})
 			isW := muts[k].Kind == "write" || muts[k].Kind == "writeat"
-			if isW && (!c.Quick() || k%3 == 0) {
+			if isW && (!c.Quick() || k%3 == 0 || M <= 12) {
 				pts = append(pts, point{k, true})
 			}
 		}
